@@ -167,6 +167,10 @@ pub fn run_full(kind: &str, extra: &[String], items: &[String], timeout: Duratio
 
 // worker side: answer every stdin line with exactly one stdout line, on a thread with gram's own stack budget
 pub fn serve(f: impl Fn(&str) -> String + Send + 'static) {
+    // a runaway case of the code under test must not take the machine down: address space capped (GV_WORKER_MEM_GB, default 16)
+    let gb: u64 = std::env::var("GV_WORKER_MEM_GB").ok().and_then(|x| x.parse().ok()).unwrap_or(16);
+    let lim = libc::rlimit { rlim_cur: gb << 30, rlim_max: gb << 30 };
+    unsafe { libc::setrlimit(libc::RLIMIT_AS, &lim) };
     let h = std::thread::Builder::new()
         .stack_size(16 * 1024 * 1024)
         .spawn(move || {
